@@ -2032,6 +2032,33 @@ def raise_sum_loops(fnode, bsrc, stats):
   ast.fix_missing_locations(fnode)
 
 
+def lower_list_map(fnode, bsrc, stats):
+  """`list(map(F, IT))` with F a plain name / attribute chain, where the reference function has no `map(`: `[F(x) for x in IT]` (one call per element,
+  in order, all made before the list exists -- what the reference comprehension does)."""
+  if 'map(' in ast.unparse(bsrc):
+    return
+  k = [0]
+  for n in ast.walk(fnode):
+    for fld, v in ast.iter_fields(n):
+      vs = v if isinstance(v, list) else [v]
+      for i, x in enumerate(vs):
+        if (isinstance(x, ast.Call) and isinstance(x.func, ast.Name) and x.func.id == 'list' and len(x.args) == 1 and not x.keywords
+            and isinstance(x.args[0], ast.Call) and isinstance(x.args[0].func, ast.Name) and x.args[0].func.id == 'map' and len(x.args[0].args) == 2
+            and not x.args[0].keywords and _is_pure_chain(x.args[0].args[0])):
+          k[0] += 1
+          var = '__m%d' % k[0]
+          F, IT = x.args[0].args
+          comp = ast.ListComp(elt=ast.Call(func=F, args=[ast.Name(id=var, ctx=ast.Load())], keywords=[]),
+                              generators=[ast.comprehension(target=ast.Name(id=var, ctx=ast.Store()), iter=IT, ifs=[], is_async=0)])
+          ast.copy_location(comp, x)
+          if isinstance(v, list):
+            v[i] = comp
+          else:
+            setattr(n, fld, comp)
+          stats['maps'] = stats.get('maps', 0) + 1
+  ast.fix_missing_locations(fnode)
+
+
 def raise_append_loops(fnode, bsrc, stats):
   """`acc = []` directly followed by `for T in IT: [if C:] acc.append(E)` (nothing else in the loop), in a function whose reference version has
   comprehensions and no such accumulation loop: the comprehension `acc = [E for T in IT if C]` again (the same calls in the same order; the list
@@ -2519,6 +2546,7 @@ def rename_function(fnode, rel, qualname, base_funcs, stats):
         lower_new_or_returns(fnode, bsrc, stats)
         keywords_to_positional(fnode, bsrc, stats)
         inline_direct_nested_calls(fnode, bsrc, stats)
+        lower_list_map(fnode, bsrc, stats)
         raise_append_loops(fnode, bsrc, stats)
         raise_sum_loops(fnode, bsrc, stats)
         restore_guarded_setdefault(fnode, bsrc, stats)
